@@ -1,1 +1,21 @@
-fn main() { println!("vh"); }
+mod graphs;
+mod hooks;
+
+fn arg(args: &[String], name: &str) -> Option<String> {
+    args.iter().position(|a| a == name).and_then(|i| args.get(i + 1).cloned())
+}
+
+fn main() {
+    let args: Vec<String> = std::env::args().collect();
+    let cmd = args.get(1).map(|s| s.as_str()).unwrap_or("");
+    let inp = arg(&args, "--in").unwrap_or_default();
+    let out = arg(&args, "--out").unwrap_or_default();
+    let par: usize = arg(&args, "--par").and_then(|s| s.parse().ok()).unwrap_or(1);
+    match cmd {
+        "graphs" => graphs::main_graphs(&inp, &out, par),
+        _ => {
+            eprintln!("usage: vh <graphs> --in F --out F [--par N]");
+            std::process::exit(2);
+        }
+    }
+}
